@@ -70,6 +70,9 @@ def rich_documents() -> dict:
     schemas["GuestA"] = {"allOf": [r("Base"), {"type": "object", "required": ["email"]}]}
     schemas["GuestB"] = {"allOf": [r("Base"), {"type": "object", "properties": {"more": S}}]}
     schemas["Lit"] = {"type": "string", "enum": ["b", "a", "c"]}
+    # legal but unusual: `required` names properties nobody declares, repeats names, and names inherited ones
+    schemas["Ghosts"] = {"type": "object", "required": ["ghost_b", "real", "ghost_a", "ghost_c", "ghost_a", "ghost_d"], "properties": {"real": S}}
+    schemas["GhostKid"] = {"allOf": [r("Ghosts"), {"type": "object", "required": ["phantom_z", "phantom_y", "real", "phantom_x"], "properties": {"own": S}}]}
     paths = {}
     for i, n in enumerate(names):
         paths[f"/{n.lower()}/{{id}}"] = {"get": {"operationId": f"get{n}", "tags": [n.lower(), "all"], "parameters": [
@@ -80,8 +83,17 @@ def rich_documents() -> dict:
             "requestBody": {"content": {"application/json": {"schema": r(n)}, "multipart/form-data": {"schema": r(names[(i + 1) % 6])}}},
             "responses": {"200": {"description": "d", "content": {"application/json": {"schema": r(n)}}},
                           "404": {"description": "d", "content": {"application/json": {"schema": r(names[(i + 2) % 6])}}},
-                          "409": {"description": "d", "content": {"application/json": {"schema": {"type": "array", "items": r("Child")}}}}}}}
-    docs = {"rich": gen.mkdoc(schemas=schemas, paths=paths)}
+                          "409": {"description": "d", "content": {"application/json": {"schema": {"type": "array", "items": r("Child")}}}},
+                          # shared component responses / parameters / bodies whose schemas are written INLINE (classes are named after the user)
+                          "422": {"$ref": "#/components/responses/Problem"}, "503": {"$ref": "#/components/responses/Problem"}}}}
+        paths[f"/{n.lower()}/{{id}}"]["get"]["parameters"].append({"$ref": "#/components/parameters/Mode"})
+    paths["/shared"] = {"post": {"operationId": "sharedBody", "tags": ["all"], "requestBody": {"$ref": "#/components/requestBodies/Inline"}, "responses": {"422": {"$ref": "#/components/responses/Problem"}}},
+                        "put": {"operationId": "sharedBody2", "tags": ["all"], "requestBody": {"$ref": "#/components/requestBodies/Inline"}, "responses": {"422": {"$ref": "#/components/responses/Problem"}}}}
+    comps = {"responses": {"Problem": {"description": "d", "content": {"application/json": {"schema": {"type": "object", "properties": {"code": {"type": "string", "enum": ["e1", "e2"]},
+                                                                                                                                  "detail": {"type": "object", "properties": {"why": S}}}}}}}},
+             "parameters": {"Mode": {"name": "mode", "in": "query", "schema": {"type": "string", "enum": ["fast", "slow"]}}},
+             "requestBodies": {"Inline": {"content": {"application/json": {"schema": {"type": "object", "properties": {"payload": {"type": "object", "properties": {"x": S}}}}}}}}}
+    docs = {"rich": gen.mkdoc(schemas=schemas, paths=paths, components=comps)}
     e2e = REPO / "end_to_end_tests"
     from ruamel.yaml import YAML
     for f in ["baseline_openapi_3.0.json", "baseline_openapi_3.1.yaml", "3.1_specific.openapi.yaml", "literal_enums.openapi.yaml"]:
